@@ -60,7 +60,7 @@ def cases(tier, seed):
             names[1] = names[0]
             aac[0], aac[1] = 0, 1
         kind = rng.choice(['imm', 'veto', 'mixed'])
-        base = {'imm': 40, 'veto': 150, 'mixed': 126}[kind]
+        base = {'imm': rng.choice([40, 40, 0]), 'veto': 150, 'mixed': 126}[kind]          # address 0 is a legal (and falsy) preferred address
         style = rng.choice(['equal', 'cluster', 'spread'])
         if style == 'equal':
             addrs = [base] * n
